@@ -24,6 +24,7 @@ def run(tier, seed):
                "BudgetOnExplained FirstCallNoModel FirstCallSeedsOnly StoreOnce StoreAfterExplanation "
                "NeverOwnBackground SeenCountsReturns")
     X.live_stage(ctx)
+    X.skeleton_stage(ctx, ["sage_o", "pfi_def"] if quick else ["sage_a", "pfi_a", "sage_o", "pfi_o", "sage_def", "pfi_def"])
     # storage / counter discipline as a refinement: a returning call is exactly one atomic Explain step (one storage
     # update after the explanation, counter + 1), a failing call changes neither storage nor estimates
     X.refine_stage(ctx, ["sage_o"] if quick else ["sage_a", "pfi_a", "sage_o", "pfi_o", "sage_def", "pfi_def", "sage_b", "pfi_b"])
